@@ -10,6 +10,13 @@ reads must be accepted by the model (`accept`, Python's projection of the global
 code itself: every synchronous `expect` must see the text it waits for, no session may hang (watchdog), a session
 ended by an unknown command / die / failed transfer must end with the documented error, and the daemon must answer
 `alive` after every session that is supposed to leave it usable.
+
+Before any daemon is started two stub tiers run the real processor code on in-memory pipes: every read context × every
+form of the death notice (`_notice_matrix`), and batches of outstanding expectations answered positively/negatively at
+every position through each entry point, followed by the next request's reply (`_batch_matrix`, model `consumeBatch`).
+On the real daemon the profile bashrcs handed over vary in content (exit status of `source` 0/1/3, evaluated items), and
+asynchronous preload batches contain an eclass the daemon rejects; per session the replies in flight at the end must equal
+Python's outstanding expectations, and the lines written per bashrc item are compared with the model `sourceBashrcs`.
 """
 import os
 import shutil
@@ -31,6 +38,9 @@ OBLIGATIONS = [
     "Pkgcore.C35.api_programs_wf",
     "Pkgcore.C35.answers_wf",
     "Pkgcore.C35.notice_forms_recognised",
+    "Pkgcore.C35.batch_reads_own_replies",
+    "Pkgcore.C35.bashrc_items_answered",
+    "Pkgcore.C35.bashrc_paths_acknowledged",
 ]
 TRUSTED = [
     "the two state machines are a hand-written abstraction at message level: reply kinds instead of texts, multi-line units "
@@ -47,7 +57,11 @@ ASSUMPTIONS = [
     "_request_bashrcs and sandbox_summary do",
 ]
 RULE = ("every read context of the processor (synchronous expect, batched expects, generic_handler, inside a helper request) x "
-        "every notice form (dying, dying <logfile>, logfile with blanks, SIGINT, SIGTERM) on stub pipes; "
+        "every notice form (dying, dying <logfile>, logfile with blanks, SIGINT, SIGTERM) on stub pipes; batches of 1-5 outstanding "
+        "expectations answered positively/negatively at every position, consumed by _consume_async_expects, a synchronous, a timed "
+        "expect and generic_handler, each followed by the next request's reply (stub pipes); "
+        "profile bashrcs with exit status 0/1/3 of `source` (false test as last command, `false`, `return 3`), evaluated "
+        "(`transfer`) items, asynchronous preload batches containing an eclass that fails the daemon's syntax check; "
         "recorded sessions on real daemons: 16 scripted scenarios (each API call, each request kind, logging, file and inline "
         "transfer, die with and without build logging, die inside a profile bashrc while Python waits for `next`, die after an IPC "
         "exchange, unknown command, failed transfer, SIGTERM, shutdown) plus random sequences of 3-8 API calls on one "
@@ -128,6 +142,14 @@ COMMANDS = [("alive", "alive"), ("preload_eclass ", "preload"), ("clear_preloade
             ("set_metadata_path ", "setMetaPath"), ("gen_metadata ", "genMeta"), ("gen_ebuild_env ", "genMeta"),
             ("process_ebuild ", "processEbuild"), ("start_receiving_env ", "startEnv"), ("logging ", "logging"),
             ("set_sandbox_state ", "sandboxState"), ("start_processing", "startProcessing"), ("shutdown_daemon", "shutdown")]
+
+
+ASKS = {"alive", "preload", "clear", "setMetaPath", "startEnv", "logging", "bashrcItem"}      # commands the daemon answers
+
+
+def in_flight(tr):
+    """replies the daemon owes / has written that Python has not read, from the abstract trace"""
+    return sum(1 for k, m in tr if k == "w" and m in ASKS) - sum(1 for k, m in tr if k == "r" and m in REPLIES.values())
 
 
 def abstract(log, helpers):
@@ -216,6 +238,19 @@ pkg_pretend() {
 '''
 
 
+# profile bashrcs as Python hands them over: (mode, content, exit status of `source`/`eval`) — all valid
+BASHRC_POOL = [
+    ("path", "VT_RC_A=1\n", 0),
+    ("path", "vt_rc_func() { :; }\n[[ -n ${VT_UNSET_KNOB} ]] && export VT_KNOB=1\n", 1),      # the usual idiom, knob unset
+    ("path", "VT_RC_B=2\nfalse\n", 1),
+    ("path", "VT_RC_C=3\nreturn 3\n", 3),
+    ("path", "# nothing but a comment\n", 0),
+    ("path", "[[ ${EBUILD_PHASE} == nosuchphase ]] && VT_RC_D=4\n", 1),
+    ("transfer", "VT_RC_T=1", 0),
+    ("transfer", 'export VT_RC_U="a b"; :', 0),
+]
+
+
 class Bench:
     def __init__(self, ctx, scratch):
         from pkgcore.ebuild import ebd_ipc, processor
@@ -254,15 +289,35 @@ class Bench:
         self.dying_bashrc = False
         with open(os.path.join(scratch, "dying.bashrc"), "w") as f:
             f.write('die "bashrc boom"\n')
+        # profile bashrcs: (mode, file or text, exit status of source/eval); all of them valid
+        self.bashrc_pool = []
+        for i, (mode, text, status) in enumerate(BASHRC_POOL):
+            if mode == "path":
+                fn = os.path.join(scratch, f"profile{i}.bashrc")
+                with open(fn, "w") as f:
+                    f.write(text)
+                self.bashrc_pool.append(("path", fn, status))
+            else:
+                self.bashrc_pool.append((mode, text, status))
+        self.bashrc_plan = None          # None: the eclass files below, as before
+        self.plans_used = []
+        # an eclass the daemon's syntax check (`bash -n`) rejects: its preload is answered `preload_eclass failed`
+        with open(os.path.join(scratch, "broken.eclass"), "w") as f:
+            f.write("broken_func() { :; }\nif true; then\n")
+        ec = self.repo.eclass_cache.eclasses
+        self.mixed_cache = types.SimpleNamespace(eclasses=dict(
+            {n: ec[n] for n in ("foo", "bar", "baz")}, broken=types.SimpleNamespace(path=os.path.join(scratch, "broken.eclass"))))
 
     def _bashrcs(self, ebd, a=None):
-        if self.dying_bashrc:
+        if self.bashrc_plan is not None:
+            items = list(self.bashrc_plan)
+        else:
             # a profile bashrc that calls die: the notice arrives while Python waits for `next` (synchronous expect)
-            ebd.write(f"path\n{self.scratch}/dying.bashrc")
-            if not ebd.expect("next"):
-                raise RuntimeError("no next")
-        for n in ["bar", "baz"][:self.nbashrcs]:
-            ebd.write(f"path\n{self.scratch}/repo/eclass/{n}.eclass")
+            items = [("path", f"{self.scratch}/dying.bashrc", "die")] if self.dying_bashrc else []
+            items += [("path", f"{self.scratch}/repo/eclass/{n}.eclass", 0) for n in ["bar", "baz"][:self.nbashrcs]]
+        self.plans_used.append(items)
+        for mode, what, status in items:
+            ebd.write(f"{mode}\n{what}")
             if not ebd.expect("next"):
                 raise RuntimeError("no next")
         ebd.write("end_request")
@@ -279,6 +334,16 @@ class Bench:
     def op_preload_sync(self, ebp, rng):
         ebp._preloaded_eclasses.clear()
         return ebp.preload_eclasses(self.repo.eclass_cache, async_req=False)
+
+    def op_preload_mixed(self, ebp, rng):
+        """an asynchronous batch in which one preload is answered negatively, consumed by the next synchronous call"""
+        names = [n for n in ("foo", "bar", "baz") if rng.random() < 0.6]
+        names.insert(rng.randint(0, len(names)), "broken")
+        ebp._preloaded_eclasses.clear()
+        ebp.preload_eclasses(self.mixed_cache, async_req=True, limited_to=names)
+        ebp.is_responsive          # consumes the batch together with its own probe (False is truthful: one preload failed)
+        ebp._preloaded_eclasses.clear()
+        return True
 
     def op_clear(self, ebp, rng):
         return ebp.clear_preloaded_eclasses()
@@ -300,6 +365,13 @@ class Bench:
 
     def op_phase(self, ebp, rng):
         self.nbashrcs = rng.choice([0, 1, 2])
+        self.bashrc_plan = rng.choice([None, [rng.choice(self.bashrc_pool) for _ in range(rng.choice([0, 1, 2, 3]))]])
+        try:
+            return self._op_phase(ebp, rng)
+        finally:
+            self.bashrc_plan = None
+
+    def _op_phase(self, ebp, rng):
         return self.phase(ebp, rng.choice(["none", "ipc", "bashrc", "both"]), logging=rng.random() < 0.4, tmpdir=rng.random() < 0.4)
 
     # ---- one recorded session
@@ -313,16 +385,20 @@ class Bench:
 
         def expect(want, *a, **kw):
             n = len(log)
+            batch = [w for _, w in ebp._outstanding_expects] + [want]
             r = orig_expect(want, *a, **kw)
             if not kw.get("async_req") and not (a and a[0]):
-                expects.append((want, r, n))
+                expects.append((batch, r, n, len(log)))
             return r
         ebp.expect = expect
         problems, err = [], None
+        self.plans_used = []
+        outstanding_after = None
         try:
             with Watchdog(ebp, watchdog) as wd:
                 try:
                     res = fn(ebp)
+                    outstanding_after = len(ebp._outstanding_expects)
                     if expect_error is None and not res:
                         problems.append(f"the API call reported failure ({res!r})")
                 except BaseException as e:  # noqa
@@ -337,11 +413,27 @@ class Bench:
         if expect_error is not None and expect_error != "False":
             if err is None or type(err).__name__ != expect_error:
                 problems.append(f"expected the session to end with {expect_error}, got {type(err).__name__ if err else 'no error'}")
+        tr = abstract(log, set(self.handlers))
         if expect_error is None:
-            for want, r, n in expects:
-                if not r:
-                    got = next((t for k, t in log[n:] if k == "r"), None)
-                    problems.append(f"expect({want!r}) was answered with {got!r}")
+            # every request is matched with its own reply: a synchronous expect with k expectations outstanding reads k+1
+            # lines, the i-th being a reply (positive or negative) to the i-th request, and reports whether all were positive
+            for batch, r, n, n2 in expects:
+                got = [t.rstrip("\n") for k, t in log[n:n2] if k == "r"]
+                if len(got) < len(batch):
+                    problems.append(f"expect({batch[-1]!r}) with {len(batch) - 1} expectations outstanding read only {got!r}: "
+                                    f"{len(batch) - len(got)} replies of the batch were left in the pipe")
+                    continue
+                for want, line in zip(batch, got):
+                    if line != want and (want not in REPLIES or REPLIES.get(line) != REPLIES[want]):
+                        problems.append(f"the request expecting {want!r} was paired with the line {line!r} "
+                                        f"(batch {batch!r} read {got!r})")
+                        break
+                else:
+                    if bool(r) != (got[:len(batch)] == batch):
+                        problems.append(f"expect for batch {batch!r} read {got!r} but returned {r!r}")
+            if err is None and outstanding_after is not None and in_flight(tr) != outstanding_after:
+                problems.append(f"at the end of the calls {in_flight(tr)} replies are in flight but Python has {outstanding_after} "
+                                "outstanding expectations: the next request will be paired with an earlier request's reply")
         # the daemon afterwards
         try:
             if leaves_daemon and not problems:
@@ -354,7 +446,7 @@ class Bench:
                 ebp.shutdown_processor(force=True)
         except BaseException as e:  # noqa
             problems.append(f"cleaning up raised {type(e).__name__}")
-        return abstract(log, set(self.handlers)), problems, log
+        return tr, problems, log, list(self.plans_used)
 
 
 def run(ctx):
@@ -451,9 +543,111 @@ def _notice_matrix(ctx, scratch):
                     ctx.violation(case, f"SIGTERM notice in {cname}: the processor was not shut down")
 
 
+def _batch_matrix(ctx, scratch, rng):
+    """batches of outstanding expectations on stub pipes: every reply of the batch — expected text or not — belongs to its
+    request and must be read; afterwards the pipe is at the reply of the next request (model: consumeBatch, theorem
+    batch_reads_own_replies)"""
+    import io
+    from pkgcore.ebuild import processor
+    WANTS = ["preload_eclass succeeded", "preload_eclass succeeded", "yep!", "clear_preloaded_eclasses succeeded"]
+    NEG = {"preload_eclass succeeded": "preload_eclass failed", "yep!": "nope", "clear_preloaded_eclasses succeeded":
+           "clear_preloaded_eclasses failed"}
+    plans = []
+    for n in (1, 2, 3, 4):
+        plans.append((["preload_eclass succeeded"] * n, [True] * n))
+        for i in range(n):
+            plans.append((["preload_eclass succeeded"] * n, [j != i for j in range(n)]))
+    plans.append((["preload_eclass succeeded", "yep!"], [False, True]))
+    plans.append((["preload_eclass succeeded", "preload_eclass succeeded", "yep!"], [True, False, True]))
+    plans.append((["preload_eclass succeeded", "yep!", "clear_preloaded_eclasses succeeded"], [False, False, True]))
+    for _ in range(ctx.n(25, 400)):
+        n = rng.randint(1, 5)
+        plans.append(([rng.choice(WANTS) for _ in range(n)], [rng.random() < 0.6 for _ in range(n)]))
+    contexts = ["consume", "sync-expect", "timed-expect", "handler"]
+    jobs = []
+    for wants, pos in plans:
+        for cname in contexts:
+            replies = [w if ok else NEG[w] for w, ok in zip(wants, pos)]
+            tail = ["phases succeeded", "SENTINEL"] if cname == "handler" else ["yep!", "SENTINEL"]
+            jobs.append((cname, wants, pos, replies, tail))
+    reps = ctx.model([{"cmd": "c35.consume", "expected": wants, "pipe": [l + "\n" for l in replies + tail]}
+                      for _, wants, _, replies, tail in jobs])
+    for (cname, wants, pos, replies, tail), m in zip(jobs, reps):
+        p = processor.EbuildProcessor.__new__(processor.EbuildProcessor)
+        p._readonly_vars, p.pid = frozenset(), None
+        p.shutdown_processor = lambda *a, **kw: None
+        p.ebd_read = io.BytesIO("".join(l + "\n" for l in replies + tail).encode())
+        p.ebd_write = open(os.path.join(scratch, "matrix-pipe"), "w")
+        case = {"scenario": "batch-matrix", "context": cname, "expected": wants, "replies": replies, "then": tail}
+        try:
+            try:
+                if cname == "consume":
+                    p._outstanding_expects = [(False, w) for w in wants]
+                    res = p._consume_async_expects()
+                elif cname in ("sync-expect", "timed-expect"):
+                    p._outstanding_expects = [(False, w) for w in wants[:-1]]
+                    res = p.expect(wants[-1], **({"timeout": 10} if cname == "timed-expect" else {}))
+                else:
+                    p._outstanding_expects = [(False, w) for w in wants]
+                    try:
+                        res = bool(p.generic_handler())
+                    except processor.UnhandledCommand as e:
+                        res = False if "alignment" in str(e) else e
+                err = None
+            except BaseException as e:  # noqa
+                res, err = None, e
+            armed = signal.getitimer(signal.ITIMER_REAL)[0]
+            if armed:
+                signal.setitimer(signal.ITIMER_REAL, 0)
+                signal.signal(signal.SIGALRM, signal.SIG_DFL)
+            pos_now = p.ebd_read.tell()
+            rest = p.ebd_read.read().decode().split("\n")[:-1]
+            ctx.case(case, not all(pos), key=repr((cname, wants, replies)))
+            ctx.count("batch_" + cname)
+            ctx.count("batch_size_%d" % len(wants))
+            ctx.count("batch_negatives_%d" % pos.count(False))
+            want_rest = tail if (cname != "handler" or not all(pos)) else ["SENTINEL"]
+            if armed:
+                ctx.violation(case, f"the expect has returned but the interval timer it armed is still running ({armed:.1f} s left): "
+                                    "a TimeoutError will be raised inside whatever request is being served at that moment")
+            elif err is not None:
+                ctx.violation(case, f"a batch of replies without any notice raised {type(err).__name__}: {str(err)[:100]}")
+            elif rest != want_rest:
+                ctx.violation(case, f"{len(wants)} expectations were outstanding and answered with {replies!r}; afterwards the pipe holds "
+                                    f"{rest!r} instead of {want_rest!r}: the next request would be paired with another request's reply")
+            elif res is not (all(pos)):
+                ctx.violation(case, f"replies {replies!r} for expectations {wants!r}: the result is {res!r}")
+            elif m == "bad-op" or m[0] != "result" or m[1] != all(pos) or m[2] != [l + "\n" for l in tail]:
+                ctx.mismatch(case, f"the model's consumeBatch gives {m!r}")
+            elif cname != "handler":
+                # the next request on the same pipe is answered by its own reply
+                p.ebd_read.seek(pos_now)
+                p._outstanding_expects = []
+                if p.expect("yep!") is not True or p.ebd_read.read() != b"SENTINEL\n":
+                    ctx.violation(case, "the request following the batch did not read its own reply")
+        finally:
+            p.ebd_write.close()
+
+
 def _run(ctx, scratch):
     rng = ctx.rng
     _notice_matrix(ctx, scratch)
+    _batch_matrix(ctx, scratch, rng)
+    # what the daemons print (die messages, syntax errors of the rejected eclass) goes to a scratch file, not to the check's stderr
+    sys_err = os.dup(2)
+    errlog = os.open(os.path.join(scratch, "daemon-stderr.log"), os.O_WRONLY | os.O_CREAT | os.O_APPEND, 0o600)
+    os.dup2(errlog, 2)
+    try:
+        _daemon_sessions(ctx, scratch, rng)
+    finally:
+        os.dup2(sys_err, 2)
+        os.close(sys_err)
+        os.close(errlog)
+
+
+def _daemon_sessions(ctx, scratch, rng):
+    from pkgcore.ebuild import processor as _p
+    _p.shutdown_all_processors()          # daemons started from here on inherit the redirected stderr
     bench = Bench(ctx, scratch)
     if bench.pkg is None:
         ctx.broken.append("the one-ebuild repository does not yield its package")
@@ -486,6 +680,26 @@ def _run(ctx, scratch):
         ebp.shutdown_processor()
         return ebp.pid is None
 
+    def with_plan(plan, f):
+        def g(ebp):
+            bench.bashrc_plan = plan
+            try:
+                return f(ebp)
+            finally:
+                bench.bashrc_plan = None
+        return g
+
+    def negative_batch(ebp):
+        # three asynchronous preloads, the middle one of an eclass the daemon rejects; the batch is consumed by the probe
+        ebp._preloaded_eclasses.clear()
+        ebp.preload_eclasses(bench.mixed_cache, async_req=True, limited_to=["foo", "broken", "bar"])
+        ebp.is_responsive                  # False is truthful here (one preload failed)
+        ebp._preloaded_eclasses.clear()
+        return ebp.is_responsive and bench.op_keys(ebp, rng)
+
+    pool = bench.bashrc_pool
+    statuses_plan = [pool[0], pool[1], pool[2], pool[3], pool[6]]
+
     scenarios = [
         ("responsive", two(bench.op_responsive, bench.op_responsive), None, True),
         ("preload-async+clear", two(bench.op_preload_async, bench.op_clear), None, True),
@@ -493,7 +707,12 @@ def _run(ctx, scratch):
         ("preload-sync", lambda e: bench.op_preload_sync(e, rng), None, True),
         ("keys+envdump", two(bench.op_keys, bench.op_envdump), None, True),
         ("phase-ipc", lambda e: bench.phase(e, "ipc"), None, True),
+        ("preload-async-negative+keys", negative_batch, None, True),
         ("phase-bashrc-logging-file", lambda e: bench.phase(e, "both", logging=True, tmpdir=True), None, True),
+        ("phase-bashrcs-nonzero-status", with_plan(statuses_plan, lambda e: bench.phase(e, "bashrc")), None, True),
+        ("phase-bashrcs-all", with_plan(list(pool), lambda e: bench.phase(e, "both", logging=True)), None, True),
+        ("die-in-bashrc-transfer", with_plan([pool[1], ("transfer", "VT_X=1; false", 1), pool[0]],
+                                             lambda e: bench.phase(e, "bashrc")), "EbdError", False),
         ("die", lambda e: bench.phase(e, "die"), "EbdError", False),
         ("die-logging", lambda e: bench.phase(e, "die", logging=True), "EbdError", False),
         ("die-in-bashrc-logging", lambda e: dying_bashrc(e, True), "EbdError", False),
@@ -506,17 +725,26 @@ def _run(ctx, scratch):
     if ctx.quick():
         # the stub matrix above covers every notice form in every read context; on the real daemon the quick tier keeps the
         # two extreme die scenarios (no log file / log file + synchronous expect) and leaves the rest to the thorough tier
-        skip = {"die-logging", "die-in-bashrc", "die-after-ipc-logging-file", "preload-sync", "responsive"}
+        skip = {"die-logging", "die-in-bashrc", "die-after-ipc-logging-file", "preload-sync", "responsive",
+                "phase-bashrcs-all", "die-in-bashrc-transfer"}
         scenarios = [sc for sc in scenarios if sc[0] not in skip]
     else:
         scenarios.append(("sigterm", sigterm, "any", False))
     sessions = []
+
+    def hung():
+        return any("did not finish" in p for s_ in sessions for p in s_[2])
     for name, fn, err, leaves in scenarios:
+        if hung():
+            ctx.note("a session hung (both sides waiting): the remaining daemon sessions were skipped")
+            break
         sessions.append((name,) + bench.session(name, fn, expect_error=err if err != "any" else "False", leaves_daemon=leaves))
     ops = [bench.op_responsive, bench.op_preload_async, bench.op_preload_sync, bench.op_clear, bench.op_keys, bench.op_envdump,
-           bench.op_phase, bench.op_phase]
+           bench.op_phase, bench.op_phase, bench.op_preload_mixed]
     for i in range(ctx.n(4, 80)):
         chosen = [rng.choice(ops) for _ in range(rng.randint(3, 8))]
+        if hung():
+            break
 
         def seq(ebp, chosen=chosen):
             for f in chosen:
@@ -526,13 +754,48 @@ def _run(ctx, scratch):
         sessions.append(("random:" + ",".join(f.__name__[3:] for f in chosen),) + bench.session("random", seq))
 
     # the harness' abstraction of notices must be the model's (first word of the line)
-    lines_read = sorted({t for _, _, _, log in sessions for k, t in log if k == "r" and t})
+    lines_read = sorted({t for _, _, _, log, _ in sessions for k, t in log if k == "r" and t})
     for t, isn in zip(lines_read, ctx.model([{"cmd": "c35.notice", "line": t} for t in lines_read])):
         mine = t.strip().split(" ", 1)[0] in ("dying", "SIGINT", "SIGTERM")
         if isn != mine:
             ctx.mismatch({"line": t}, f"the model classifies this line as notice={isn}, the harness as {mine}")
-    reps = ctx.model([{"cmd": "c35.accept", "trace": tr} for _, tr, _, _ in sessions])
-    for (name, tr, problems, log), rep in zip(sessions, reps):
+    # bashrc requests: what the daemon wrote per item vs the model of __source_bashrcs
+    bjobs = []
+    for name, tr, problems, log, plans in sessions:
+        starts = [i for i, (k, t) in enumerate(log) if k == "r" and t.strip() == "request_bashrcs"]
+        for plan, st in zip(plans, starts):
+            got = []
+            for k, t in log[st + 1:]:
+                if k == "w" and t.split("\n", 1)[0] == "end_request":
+                    break
+                if k == "r":
+                    w = t.strip().split(" ", 1)[0]
+                    if t == "":
+                        got.append("eof")
+                        break
+                    if w in ("dying", "SIGINT", "SIGTERM"):
+                        got.append("death")
+                        break
+                    got.append(w if w in ("next", "failed") else "junk:" + t.strip()[:40])
+            bjobs.append((name, plan, got))
+    bjobs = [j for j in bjobs if all(isinstance(st, int) for _, _, st in j[1])]       # a bashrc that dies is outside this model
+    breps = ctx.model([{"cmd": "c35.bashrcs", "items": [[m, st] for m, _, st in plan]} for _, plan, _ in bjobs])
+    for (name, plan, got), m in zip(bjobs, breps):
+        case = {"scenario": name, "bashrcs": [[mo, (open(w).read() if mo == "path" else w), st] for mo, w, st in plan]}
+        ctx.case(case, any(st for _, _, st in plan), key="bashrcs" + repr([(mo, st) for mo, _, st in plan]))
+        ctx.count("bashrc_plan_len_%d" % len(plan))
+        for mo, _, st in plan:
+            ctx.count("bashrc_%s_status_%d" % (mo, st))
+        if m == "bad-op":
+            ctx.mismatch(case, "driver rejected the bashrc items")
+        elif got != m:
+            if got[-1:] == ["eof"] or (len(got) < len(m) and "death" not in got):
+                ctx.violation(case, f"the daemon acknowledged only {got!r} of the bashrcs handed over (the model of __source_bashrcs "
+                                    f"writes {m!r}): Python waits for `next`, the daemon for the next item")
+            else:
+                ctx.mismatch(case, f"the daemon answered the bashrc items with {got!r}, the model with {m!r}")
+    reps = ctx.model([{"cmd": "c35.accept", "trace": tr} for _, tr, _, _, _ in sessions])
+    for (name, tr, problems, log, _plans), rep in zip(sessions, reps):
         case = {"scenario": name, "trace": tr}
         kinds = {m for k, m in tr if k == "r"}
         nontrivial = bool(kinds & {"death", "request.ipc", "request.inherit", "request.bashrcs"}) or \
